@@ -3,6 +3,7 @@ package main
 // Engine A: type-resolved API-usage scans (who-may-call, argument shape, package identity).
 
 import (
+	"fmt"
 	"go/types"
 
 	"golang.org/x/tools/go/ssa"
@@ -201,4 +202,192 @@ func allowNames(names ...string) func(*ssa.Function) bool {
 		set[n] = true
 	}
 	return func(f *ssa.Function) bool { return set[shortFn(f)] }
+}
+
+// ---------------------------------------------------------------- decoded objects are written by the decoder only
+
+// decodedTypes: the struct types of package types reachable from the decoded message roots.
+func decodedTypes(p *Prog) map[string]bool {
+	set := map[string]bool{}
+	var visit func(t types.Type)
+	visit = func(t types.Type) {
+		switch u := t.(type) {
+		case *types.Pointer:
+			visit(u.Elem())
+			return
+		case *types.Slice:
+			visit(u.Elem())
+			return
+		case *types.Array:
+			visit(u.Elem())
+			return
+		case *types.Map:
+			visit(u.Elem())
+			return
+		case *types.Named:
+			if u.Obj().Pkg() == nil || (u.Obj().Pkg() != p.Types.Pkg && u.Obj().Pkg() != p.Root.Pkg) {
+				return
+			}
+			st, ok := u.Underlying().(*types.Struct)
+			if !ok {
+				return
+			}
+			k := typeStr(u)
+			if set[k] {
+				return
+			}
+			set[k] = true
+			for i := 0; i < st.NumFields(); i++ {
+				visit(st.Field(i).Type())
+			}
+		}
+	}
+	for _, r := range []string{"types.Response", "types.Assertion", "LogoutRequest", "types.LogoutResponse", "types.UnverifiedBaseResponse"} {
+		if n := p.Named(r); n != nil {
+			visit(n)
+		}
+	}
+	return set
+}
+
+// literalInit: the store fills a field of a composite literal that has not been handed to anything yet — same block as
+// the allocation, and between the two only field addressing / stores / value construction, no call or escape.
+func literalInit(st *ssa.Store) bool {
+	var base ssa.Value = st.Addr
+	for {
+		switch a := base.(type) {
+		case *ssa.FieldAddr:
+			base = a.X
+			continue
+		case *ssa.IndexAddr:
+			base = a.X
+			continue
+		}
+		break
+	}
+	al, ok := base.(*ssa.Alloc)
+	if !ok || al.Block() != st.Block() {
+		return false
+	}
+	seen := false
+	for _, in := range st.Block().Instrs {
+		if in == ssa.Instruction(al) {
+			seen = true
+			continue
+		}
+		if !seen {
+			continue
+		}
+		if in == ssa.Instruction(st) {
+			return true
+		}
+		switch x := in.(type) {
+		case ssa.CallInstruction:
+			for _, a := range x.Common().Args {
+				if a == ssa.Value(al) {
+					return false
+				}
+			}
+			if x.Common().Value == ssa.Value(al) {
+				return false
+			}
+		case *ssa.MakeInterface:
+			if x.X == ssa.Value(al) {
+				return false
+			}
+		case *ssa.Store:
+			if x.Val == ssa.Value(al) {
+				return false
+			}
+		case *ssa.MakeClosure:
+			for _, b := range x.Bindings {
+				if b == ssa.Value(al) {
+					return false
+				}
+			}
+		}
+	}
+	return false
+}
+
+// decodedImmutable: no library code stores to a field (or element) of a decoded message object, except the
+// enumerated trust flags and the two assertion lists of Response, inside the validators; composite-literal
+// initialisation and fills of fresh local slices are construction, not mutation.
+func decodedImmutable(c *Ctx, rule string) {
+	c.rule(rule, "decoded objects are written by the XML decoder only: in library scope no store to a field or element of types.Response / Assertion / LogoutRequest / LogoutResponse / UnverifiedBaseResponse or any struct reachable from them, except SignatureValidated and Response.Assertions / EncryptedAssertions inside the validators (checked by C04-R1 / C01-R1); literal initialisation is construction (positive control: hdrwrite)")
+	set := decodedTypes(c.P)
+	c.count(rule+"/decoded-struct-types", len(set))
+	c.floor(rule+"/decoded-struct-types", 25)
+	allowed := map[string]bool{"types.Response.SignatureValidated": true, "types.Assertion.SignatureValidated": true, "saml2.LogoutRequest.SignatureValidated": true,
+		"types.LogoutResponse.SignatureValidated": true, "types.Response.Assertions": true, "types.Response.EncryptedAssertions": true}
+	validators := allowNames("(*SAMLServiceProvider).ValidateEncodedResponse", "(*SAMLServiceProvider).ValidateEncodedLogoutRequestPOST", "(*SAMLServiceProvider).ValidateEncodedLogoutResponsePOST")
+	scan := func(fns []*ssa.Function, report bool) (nAllowed, nBad int) {
+		for _, f := range fns {
+			for _, b := range f.Blocks {
+				for _, in := range b.Instrs {
+					st, ok := in.(*ssa.Store)
+					if !ok {
+						continue
+					}
+					what := ""
+					switch a := st.Addr.(type) {
+					case *ssa.FieldAddr:
+						owner, _ := derefStruct(a.X.Type())
+						if owner == nil || !set[typeStr(owner)] {
+							continue
+						}
+						what = typeStr(owner) + "." + owner.Underlying().(*types.Struct).Field(a.Field).Name()
+					case *ssa.IndexAddr:
+						var et types.Type
+						switch u := a.X.Type().Underlying().(type) {
+						case *types.Slice:
+							et = u.Elem()
+						case *types.Pointer:
+							if arr, ok := u.Elem().Underlying().(*types.Array); ok {
+								et = arr.Elem()
+							}
+						}
+						if et == nil || !set[typeStr(et)] {
+							continue
+						}
+						// element of a slice/array that this function created itself: construction
+						switch bx := a.X.(type) {
+						case *ssa.MakeSlice, *ssa.Alloc:
+							continue
+						case *ssa.Slice:
+							if _, isAlloc := bx.X.(*ssa.Alloc); isAlloc {
+								continue
+							}
+						}
+						what = "element of []" + typeStr(et)
+					default:
+						continue
+					}
+					if literalInit(st) {
+						continue
+					}
+					if allowed[what] && c.P.withinOnly(f, validators) {
+						nAllowed++
+						continue
+					}
+					nBad++
+					if report {
+						c.bad(rule, shortFn(f), "store "+what, c.P.InstrPos(st), "library code assigns "+what+" of a decoded object outside the decoder: what the caller receives is no longer what was decoded from the (signed) element")
+					}
+				}
+			}
+		}
+		return
+	}
+	nA, nB := scan(c.P.LibFns, true)
+	c.count(rule+"/allowed-writers", nA)
+	c.floor(rule+"/allowed-writers", 8)
+	if nB == 0 {
+		c.ok(rule, "library", "no other store into decoded objects", "-", fmt.Sprintf("%d library functions scanned, %d enumerated validator stores", len(c.P.LibFns), nA))
+	}
+	_, fired := scan(controlFns(c, "hdrwrite"), false)
+	c.Controls[rule+" hdrwrite"] = fired > 0
+	if fired == 0 {
+		c.bad(rule, "controls/hdrwrite", "positive control", "-", "matcher did not flag the control that rewrites Response.Issuer")
+	}
 }
